@@ -19,6 +19,7 @@
 #include <fcntl.h>
 #include <unistd.h>
 #include <ctype.h>
+#include <sched.h>
 #include <sys/socket.h>
 #include <sys/uio.h>
 #include <netinet/in.h>
@@ -490,15 +491,22 @@ static void do_mk(struct rq *q, int con, unsigned type, const char *uri)
 /* ------------------------------------------------------------ stepping */
 static void step_idle(void)
 {
-	int it;
+	int it, quiet = 0;
 	if (!base) return;
+	/* idle = two consecutive rounds (library loop + peer service) without any callback or peer
+	 * activity, with a yield in between: on a heavily loaded machine the loopback ACK/window
+	 * update that makes a socket writable again may be processed by ksoftirqd a moment later */
 	for (it = 0; it < 4000; it++) {
 		long before = nprogress;
 		nwaits_in_call = 0;
 		event_base_loop(base, EVLOOP_NONBLOCK);
 		service_peers();
 		if (stopped) break;
-		if (nprogress == before) break;
+		if (nprogress == before) {
+			if (++quiet >= 2) break;
+			sched_yield();
+		} else
+			quiet = 0;
 	}
 	if (it >= 4000) TR("noidle");
 }
@@ -507,7 +515,8 @@ static void tick(void)
 	int64_t t0 = vclk_mono_us;
 	if (!base || stopped) return;
 	blocked = 0; vclk_blocked_forever = 0; nwaits_in_call = 0;
-	event_base_loop(base, EVLOOP_ONCE);
+	/* returns 1 when no event is registered at all: nothing can ever happen again */
+	if (event_base_loop(base, EVLOOP_ONCE) == 1) blocked = 1;
 	TR("tick %lld%s", (long long)(vclk_mono_us - t0), blocked ? " blocked" : "");
 	step_idle();
 }
